@@ -202,6 +202,10 @@ def rdivInt (n : Int) (r : RPoly) : RPoly := ⟨KP.mul r.denom (KP.ofInt n), r.n
 /-- `__pow__` for a non-negative exponent -/
 def pow (r : RPoly) (n : Nat) : Option RPoly := (powerSupply mul r n).bind (·.getLast?)
 
+/-- `__pow__` for any integer exponent: `power < 0` computes the positive power and returns `1 / last` -/
+def powInt (r : RPoly) (n : Int) : Option RPoly :=
+  if n < 0 then (pow r n.natAbs).map (rdivInt 1) else pow r n.toNat
+
 end RPoly
 
 /-! ### a small stack machine over both classes, used by the driver for the correspondence check -/
@@ -242,7 +246,7 @@ def exec (tok : String) (st : List Val) : Option (List Val) :=
   | ["mkr"], .p b :: .p a :: st => some (.r ⟨a, b⟩ :: st)              -- Polynomial / Polynomial
   | ["rdiv", k], .r a :: st => k.toInt?.map fun k => .r (RPoly.rdivInt k a) :: st
   | ["pow", k], .p a :: st => k.toNat?.map fun k => (match pow a k with | some v => .p v | none => .err "KeyError") :: st
-  | ["pow", k], .r a :: st => k.toNat?.map fun k => (match RPoly.pow a k with | some v => .r v | none => .err "KeyError") :: st
+  | ["pow", k], .r a :: st => k.toInt?.map fun k => (match RPoly.powInt a k with | some v => .r v | none => .err "KeyError") :: st
   | ["eq"], .p b :: .p a :: st => some (.b (eq a b) :: st)
   | ["eq"], .r b :: .r a :: st => some (.b (RPoly.eq a b) :: st)
   | ["eq0"], .p a :: st => some (.b (eqZero a) :: st)
